@@ -49,6 +49,14 @@ CHECKS.update({
          "DESIGN.md §4 C20"),
 })
 
+CHECKS.update({
+ "C05": ("E1-choice-tree",
+         "complete enumeration of all small containment / alias / inheritance graphs rendered as programs and compiled by the real compiler; graph-theoretic oracle (reachability)",
+         "Every directed containment graph on up to 3 nodes (all kinds x 7 wrapper routings, per-edge routings on 2 nodes), all 65536 graphs on 4 nodes, all 9^4 alias graphs and all 2^16 inheritance graphs on 4 interfaces are compiled; E032 must be reported iff a containment cycle exists, chains must be real closed walks covering every node on a cycle, alias/inheritance loops must be rejected and acyclic ones accepted, and every run must end with a verdict in a crash-isolated worker.",
+         "trusted: the reachability oracle; graphs with more than 4 nodes are represented by six deterministic 10-node families only",
+         "DESIGN.md §4 C05"),
+})
+
 NOT_YET = {}
 
 def main():
